@@ -922,6 +922,15 @@ func (c *Ctx) FEq(a, b *Term) *Term {
 	return c.node(OpFEq, Bool, 0, 0, "", a, b)
 }
 func (c *Ctx) FRnd(a *Term, mode int) *Term {
+	// an int-derived double is integral already, also after scaling up by 2^k
+	if intDerived(a) {
+		return a
+	}
+	if a.Op == OpFMul && intDerived(a.Args[0]) {
+		if k, ok := pow2Exp(a.Args[1]); ok && k >= 0 {
+			return a
+		}
+	}
 	// math.Round (ties away from zero) and trunc are sign symmetric
 	if a.Op == OpFNeg && (mode == 0 || mode == 3 || mode == 4) {
 		return c.FNeg(c.FRnd(a.Args[0], mode))
